@@ -46,7 +46,9 @@ RULE = ('tables 2-8 nodes per axis, magnitudes 1e-40..1, 1-6 wavenumbers, option
         'a parameter file; a mode set and then taken back), each object evaluated at the drawn point and two cell interiors, '
         'judged in the mode the cache model (CacheConf.stepX/stepXK, driver_c14) says is in force; own-format stream: the '
         'same through the two loader classes with a file format of their own (Exo-Transmit text tables, NEMESIS binary '
-        'k-tables), every route for each, every second block with very weak tables (entries around / below 1e-36 cm2)')
+        'k-tables), every route for each, every second block with very weak tables (entries around / below 1e-36 cm2); stored-axis '
+        'stream: the temperature axis held in an integer dtype (int64/int32/int16, whole kelvins), the temperature asked for '
+        'fractional, two in three less than 1 K above / below a node')
 ASSUMPTIONS = ['np.searchsorted(a, v) on a sorted array = number of elements < v',
                'grids strictly increasing, T > 0, table entries >= 0 (> 0 in exp mode)',
                'rounding: model on Float vs numpy/numba doubles compared to 1e-9 relative + 1e-13*max|table|',
@@ -61,9 +63,12 @@ ASSUMPTIONS = ['np.searchsorted(a, v) on a sorted array = number of elements < v
                'for in the object\'s own axis (1e4 / stored wavelength)']
 
 
-def make_opacity(tg, pg, tab, wn, mode, weights=None):
+def make_opacity(tg, pg, tab, wn, mode, weights=None, tdtype=None):
+    """`tdtype`: the dtype the object's temperature axis is stored with (None: as given, float64)"""
     from taurex.opacity.interpolateopacity import InterpolatingOpacity
     from taurex.opacity.ktables.ktable import KTable
+    if tdtype is not None:
+        tg = np.asarray(tg).astype(tdtype)
 
     if weights is None:
         class MemOpacity(InterpolatingOpacity):
@@ -188,6 +193,25 @@ def gen_case(rng, k, via_bar=False, single=False, layout=None, erange=(-40.0, 0.
                 weights=weights)
 
 
+STORED_INT = ['int64', 'int32', 'int16']
+
+
+def gen_stored_int(rng, k):
+    """a table whose temperature axis is stored with an integer dtype (whole kelvins, as opacity files commonly list
+    them) and is asked for at fractional temperatures; two cases in three the temperature lies less than one kelvin (one
+    unit of the stored dtype) above or below a node, the rest are the usual regions"""
+    c = gen_case(rng, k, axes=lambda tg, pg: (np.round(tg), pg))
+    c['tdtype'] = STORED_INT[(k // 3) % len(STORED_INT)]
+    tg = c['tg']
+    if k % 3 != 2:
+        i = int(rng.integers(0, len(tg)))
+        above = k % 3 == 0
+        c['T'] = float(tg[i] + (1 if above else -1) * rng.uniform(0.02, 0.98))
+        c['near'] = ('less-than-1K-%s-%s-node' % ('above' if above else 'below',
+                                                   'an-interior' if 0 < i < len(tg) - 1 else 'an-edge'))
+    return c
+
+
 def tables_for_model(tab, sub):
     """list over (wn[, g]) of P x T tables, in the order of the flattened implementation output"""
     if tab.ndim == 3:
@@ -219,9 +243,14 @@ def eval_case(ctx, c, from_corpus=False):
     weights = None if weights is None else np.asarray(weights, float)
     if weights is None and tab.ndim == 4:
         weights = np.full(tab.shape[3], 1.0 / tab.shape[3])
-    op = make_opacity(tg, pg, tab, wn, mode, weights)
+    tdtype = c.get('tdtype')
+    op = make_opacity(tg, pg, tab, wn, mode, weights, tdtype)
     req = None if sub is None else wn[sub[0]:sub[1] + 1].copy()
     small = dict(mode=mode, T=T, P=P, tg=tg, pg=pg, region=c.get('region'), shape=list(tab.shape), sub=sub)
+    if tdtype is not None:
+        assert np.array_equal(np.asarray(op.temperatureGrid, float), tg)    # the stored axis holds the same numbers
+        small['tdtype'] = tdtype
+        ctx.bucket('stored-axis:temperature-as-%s:%s' % (tdtype, c.get('near', 'point-as-drawn')))
     try:
         out = np.asarray(op.opacity(T, P, req), float).ravel()
     except Exception as e:  # the real code must not raise anywhere in the quantified domain
@@ -718,6 +747,9 @@ def run(ctx):
     # (round-6 stream after the older ones, whose random draws it leaves as they were)
     for k in range(ctx.n(56, 1120)):
         eval_served(ctx, gen_served(ctx.rng, k, own_format=True))
+    # the temperature axis stored with an integer dtype, fractional temperatures next to the nodes
+    for k in range(ctx.n(150, 3000)):
+        eval_case(ctx, gen_stored_int(ctx.rng, k))
     # malformed stream (outside the quantifier): unsorted grid / non-positive T — recorded, never judged
     for k in range(ctx.n(10, 100)):
         c = gen_case(ctx.rng, k)
